@@ -182,6 +182,10 @@ def check_all(data, protocol, unsafe=False, ext=False, buffer=False, min_ops=Non
         for n, a, pos in ops:
             if TABLE[n].proto > protocol:
                 errs.append('C05 %s (protocol %d) in protocol-%d pickle at %d' % (n, TABLE[n].proto, protocol, pos))
+        # ... and a byte in opcode position that is no opcode of ANY protocol is outside the vocabulary of this one too
+        for e in list(errs):
+            if e.startswith('C04 decode error') and 'unknown' in e and 'opcode' in e:
+                errs.append('C05 a byte in opcode position is not an opcode of protocol <= %d: %s' % (protocol, e[4:]))
         protos = [i for i, n in enumerate(names) if n == 'PROTO']
         if protocol >= 2:
             if protos != [0] or ops[0][1] != protocol:
